@@ -62,7 +62,10 @@ ArgToks(txt) == CASE txt = "1" -> <<Nt(1)>>
                   [] txt = "N + 1" -> <<Id("N"), K("T_PLUS"), Nt(1)>>
                   [] txt = "a[1]" -> <<Id("a"), K("'['"), Nt(1), K("']'")>>
                   [] OTHER -> <<Id(txt)>>                                   \* N, i, j, x, c, and forwarded own parameters v, u
-ASSUME Len(ParamToks) = Len(ParamPool) /\ Len(OwnToks) = Len(OwnPool)
+SysXToks == << <<K("T_PROGRESS"), K("'{'"), Id("i"), K("';'"), K("'}'")>>,                                                   \* progress { i; }
+               <<K("T_GANTT"), K("'{'"), Id("G"), K("'('"), Id("k"), K("':'"), K("T_INT")>> \o Rng(0, 1) \o
+               <<K("')'"), K("':'"), Id("i"), K("T_EQ"), Id("k"), K("T_ARROW"), Nt(1), K("';'"), K("'}'")>> >>                 \* gantt { G(k : int[0,1]) : i == k -> 1; }
+ASSUME Len(ParamToks) = Len(ParamPool) /\ Len(OwnToks) = Len(OwnPool) /\ Len(SysXToks) = Len(SysX)
 RECURSIVE Sep(_, _, _)
 Sep(lists, sep, i) == IF i > Len(lists) THEN <<>> ELSE (IF i > 1 THEN <<sep>> ELSE <<>>) \o lists[i] \o Sep(lists, sep, i + 1)
 ParamString(tt) == Sep([q \in 1..Len(tt.params) |-> ParamToks[tt.params[q]]], K("','"), 1)
@@ -75,6 +78,7 @@ ProcString(mm, i) == IF i > Len(mm.procs) THEN <<>>
 SystemString(mm) == <<K("T_TYPEDEF"), K("T_INT")>> \o Rng(0, 1) \o <<Id("sys_t"), K("';'"), K("T_INT"), Id("sysv"), K("';'")>>
                     \o Cat([q \in 1..Len(mm.insts) |-> InstString(mm.insts[q])])
                     \o <<K("T_SYSTEM")>> \o ProcString(mm, 1) \o <<K("';'")>>
+                    \o Cat([q \in 1..Len(mm.sysx) |-> SysXToks[mm.sysx[q]]])
 
 (* the callbacks of the grammar, as events of Builder!Apply *)
 FromGrammar(o) ==
